@@ -17,7 +17,7 @@ TIMEOUT = {'quick': 300, 'thorough': 3000}
 MAXN = {'quick': 5, 'thorough': 7}
 N_RANDOM = {'quick': 2500, 'thorough': 500000}
 RULE = ('cases: (a) exhaustive: n in 2..N systems x priority pattern {all distinct, one tie, pairs of ties, all equal} x actor position x '
-        'action {clean_up self; remove each earlier system; remove each later system; replace each other system by a different object under the same id (same / top / bottom priority); remove and re-register the SAME object (each system incl. the actor itself, same / top / bottom priority); register a new system with priority above all / '
+        'action {clean_up self; remove each earlier system; remove each later system; replace each other system by a different object under the same id (same / top / bottom priority); remove and re-register the SAME object (each system incl. the actor itself, same / top / bottom priority); do two of these within one execute() (e.g. unregister itself and register a higher-priority system); register a new system with priority above all / '
         'just above the actor / equal / just below / below all} x action timestep {0,1}, one action per case, followed by two quiet '
         'steps that must follow the new set\'s priority order, each case advanced both by single execute_systems() calls and by ONE '
         'model.execute(n) call covering the whole block; (b) random: 3-7 systems with 2-3 actors acting in the same timestep. '
@@ -28,7 +28,7 @@ ASSUMPTIONS = ['whether a system registered mid-timestep first runs in that time
                'the oracle is computed from the script: a system removed before its turn does not perform its own scripted action']
 FLOORS = {'quick': {'action_steps': 2400, 'act_cleanup': 60, 'act_remove_earlier': 90, 'act_remove_later': 90, 'act_add_higher': 120,
                     'act_add_equal': 60, 'act_add_lower': 120, 'act_replace_earlier': 200, 'act_replace_later': 200, 'act_readd_self': 200,
-                    'act_readd_earlier': 200, 'act_readd_later': 200, 'blocks_multi': 2000, 'blocks_single': 2000, 'removed_via_clean_up': 300, 'quiet_steps': 4000, 'two_actor_steps': 1000,
+                    'act_readd_earlier': 200, 'act_compound': 500, 'act_readd_later': 200, 'blocks_multi': 2000, 'blocks_single': 2000, 'removed_via_clean_up': 300, 'quiet_steps': 4000, 'two_actor_steps': 1000,
                     'reach:Core.SystemManager.execute_systems': 5000, 'reach:Core.System.clean_up': 60},
           'thorough': {'action_steps': 100000, 'two_actor_steps': 80000}}
 EXHAUSTIVE = {}
@@ -111,8 +111,14 @@ class World:
 
     def perform(self, actor, act, t):
         kind = act[0]
+        if kind == 'compound':            # several changes made by one system within the same execute()
+            for sub in act[1:]:
+                self.perform(actor, sub, t)
+            return
         rec = lambda k, uid, entry=None: self.changes.append({'kind': k, 'uid': uid, 't': t, 'pos': self._pos(t), 'entry': entry})  # noqa
         if kind == 'cleanup':
+            if not any(r['id'] == actor.uid for r in self.ref):
+                return                     # already unregistered earlier in this compound action
             actor.clean_up()
             self.ref = [r for r in self.ref if r['id'] != actor.uid]
             rec('removed', actor.uid)
@@ -227,6 +233,9 @@ def exhaustive_cases(maxn):
                             yield {'kind': 'ex', 'prios': list(pr), 't': ta, 'actor': actor, 'action': ['readd', tgt, rel]}
                     for rel in ('top', 'above', 'equal', 'below', 'bottom'):
                         yield {'kind': 'ex', 'prios': list(pr), 't': ta, 'actor': actor, 'action': ['add', rel]}
+                        # the actor both unregisters itself and registers a new system, in either order, within one execute()
+                        yield {'kind': 'ex', 'prios': list(pr), 't': ta, 'actor': actor, 'action': ['cleanup+add', rel]}
+                        yield {'kind': 'ex', 'prios': list(pr), 't': ta, 'actor': actor, 'action': ['add+cleanup', rel]}
 
 
 def new_prio(rel, prios, actor_prio):
@@ -253,6 +262,11 @@ def case_ex(ctx, case):
             p = {'same': case['prios'][a[1]], 'top': max(case['prios']) + 1, 'bottom': min(case['prios']) - 1}[a[2]]
             act = (a[0], tgt, p)
             key = f'act_{a[0]}_' + ('self' if tgt == actor else ('earlier' if order.index(tgt) < apos else 'later'))
+        elif a[0] in ('cleanup+add', 'add+cleanup'):
+            p = new_prio(a[1], case['prios'], case['prios'][case['actor']])
+            parts = [('cleanup',), ('add', 'new', p)]
+            act = ('compound',) + tuple(parts if a[0] == 'cleanup+add' else parts[::-1])
+            key = 'act_compound'
         else:
             p = new_prio(a[1], case['prios'], case['prios'][case['actor']])
             act = ('add', 'new', p)
@@ -289,6 +303,10 @@ def case_rand(ctx, case):
             act = ('readd', f's{rng.randrange(n)}', rng.choice(levels) + rng.choice([-2, -1, 0, 1]))
         else:
             act = ('add', f'new{k}', rng.choice(levels) + rng.choice([-1, 0, 1, 5, -5]))
+        if rng.random() < 0.3:
+            extra = rng.choice([('cleanup',), ('add', f'extra{k}', rng.choice(levels) + rng.choice([-1, 0, 1, 5])),
+                                ('remove', f's{rng.choice([j for j in range(n) if j != ai])}')])
+            act = ('compound', act, extra) if rng.random() < 0.5 else ('compound', extra, act)
         w.script[(f's{ai}', ta + (rng.choice([0, 0, 1]) if k else 0))] = act
         desc.append((f's{ai}', act))
     mode = rng.choice(['single', 'multi'])
